@@ -331,11 +331,18 @@ class MultiplyNeg(MultiplyUnit):
 def contracts():
     from contracts import c01_nd  # axis-moving swap protocols against the n-d denotational model (bounded)
     from contracts import c01_scalar  # more elementwise rewrite rules
-    return c01_scalar.contracts() + [ModRule(), MinimumRule(), MaximumRule(), InRangeRule(), NormDimRule(), ConstUniform(), PowerRule(), MultiplyUnit(), MultiplyNeg()] + c01_nd.contracts()
+    cs = c01_scalar.contracts() + [ModRule(), MinimumRule(), MaximumRule(), InRangeRule(), NormDimRule(), ConstUniform(), PowerRule(), MultiplyUnit(), MultiplyNeg()] + c01_nd.contracts()
+    # The range-guarded rewrites above are value preserving only if the integer ranges they consult are sound: the C06 range-rule contracts
+    # (every _intbounds_impl) are therefore ALSO obligations of C01 (same contracts, reported under this property).
+    from contracts import C06
+    for c in [k() for k in C06._base()] + [C06.IsMonotonic()]:
+        c.prop = PROP
+        cs.append(c)
+    return cs
 
 
 TRUSTED = ['pyvc symbolic executor and its Python model (DESIGN 2.3)',
-           'soundness of child ranges is C06 (the rules are checked relative to it)',
+           'soundness of child ranges: the C06 range-rule contracts (all _intbounds_impl) are re-run as obligations of C01, because the range-guarded rewrites consult them',
            'numpy meaning of %, minimum, maximum, power, normdim, InRange.evalf (table in contracts/C01.py)',
            'int64 arithmetic treated as mathematical',
            'n-d denotations of the node constructors Transpose, TakeDiag, Ravel, Unravel, InsertAxis, Take, Inflate (concrete dofmap shape), Power, Sign, Negative, Absolute = numpy meaning of their evalf '
